@@ -7,6 +7,11 @@
 #   layer B  every command of an alphabet (all `target`, `kwargs`, `default-options` operations) and every ordered
 #            pair of a sub-alphabet on every project shape (sources as literals / variable / files() / shared list /
 #            sources: kwarg / duplicate / extra_files / inside if / no final newline / CRLF / bare call).
+#   layer C  every list operation (add / rm / add_extra_files / rm_extra_files) x every file name of a two-target project in
+#            which a name of every class occurs (only among the sources, only among extra_files, in both lists, in a list of
+#            the other target, in an array that feeds no target, nowhere) and pairs of names, x every way of writing the
+#            two lists (direct strings / array / array + strings / variable / files() / sources: kwarg  x  array / variable /
+#            files() / one bare string / absent): the command edits the list it addresses and nothing else.
 # Oracle (per process run): (1) touched file parses (real parser and reference parser E6); (2) the addressed call has
 # exactly the requested value (reference evaluation of the file, and the rewriter's own `info` JSON); (3) every byte
 # outside the statements the command may edit is unchanged; (4) every other argument of a re-printed statement keeps
@@ -1595,8 +1600,8 @@ def cross_where(rd, tname, fname):
 def layer_c(ck, stats):
     """Quick: every operation x every single name on all shapes for the first target, on the 6 "diagonal" shapes for
     the second; every unordered pair of the names the addressed target mentions (+ the new one) on 2 shapes.
-    Thorough: both targets and both command forms everywhere, every unordered pair of all names everywhere, every
-    ordered pair on the diagonal shapes."""
+    Thorough: both targets and both command forms for every single name everywhere; every unordered pair of all names
+    everywhere for the first target; every ordered pair for both targets on the diagonal shapes."""
     cases = []
     n = {k: 0 for k in ('shapes', 'single_name', 'two_names', 'name_only_in_other_list', 'name_in_both_lists', 'name_only_in_other_target',
                         'name_in_own_list', 'name_nowhere', 'second_target_addressed', 'info_of_initial_state')}
@@ -1615,9 +1620,15 @@ def layer_c(ck, stats):
                                   'cmds': [c_target(tname, 'info')], 'observe': True, 'family': 'cross:info'})
                     n['info_of_initial_state'] += 1
                 mentioned = [x for x in CROSS_NAMES if x in CROSS_FILES[tname][0] + CROSS_FILES[tname][1] + ['new.txt']]
+                oname = 'lib' if tname == 'prog' else 'prog'
+                # quick: single names without the three classes that only differ from another one by what the OTHER target
+                # does with the name (same list in both targets, both lists of the other target); they stay in the pairs
+                singles = [x for x in CROSS_NAMES if ck.thorough or not (
+                    (x in CROSS_FILES[tname][0] and x in CROSS_FILES[oname][0]) or (x in CROSS_FILES[tname][1] and x in CROSS_FILES[oname][1])
+                    or (x in CROSS_FILES[oname][0] and x in CROSS_FILES[oname][1]))]
                 for op in CROSS_OPS:
-                    lists = [[x] for x in CROSS_NAMES]
-                    if ck.thorough:
+                    lists = [[x] for x in singles]
+                    if ck.thorough and (diagonal or tname == 'prog'):
                         lists += [[x, y] for x in CROSS_NAMES for y in CROSS_NAMES if x != y and (diagonal or x < y)]
                     elif (sf, xf) in (('pos', 'arr'), ('mixed', 'files')):
                         lists += [[x, y] for x in mentioned for y in mentioned if x < y]
@@ -1663,11 +1674,13 @@ def main():
     reprinted = {}
     n_viol_cases = 0
     pending = []
+    finals = {}
     for r in pmap(run_case, cases, chunksize=4):
         c = by_id[r['id']]
         for k, v in r['counters'].items():
             total[k] += v
         layer = c['layer']
+        finals[c['id']] = r['final'] == c['text']
         keys = sorted({k for k, _ in r['viol']})
         outcome_classes.add((layer, c['family'] if layer != 'A' else '', tuple(keys), r['final'] != c['text']))
         if r['viol']:
@@ -1715,6 +1728,14 @@ def main():
         ck.sample({'case': cases[-1]['id'], 'cmd': cases[-1]['cmds']})
     for c, r in pending[:3]:
         ck.sample({'case': c['id'], 'keys': sorted({k for k, _ in r['viol']})})
+    if ck.want('C'):
+        ck.require(cstats['name_only_in_other_list'] > 100, 'no list operation was given a name that occurs only in the OTHER list of its target')
+        ck.require(cstats['name_in_both_lists'] > 50, 'no list operation was given a name that occurs in both lists of its target')
+        ck.require(cstats['name_only_in_other_target'] > 100, 'no list operation was given a name that only another target lists')
+        ck.require(cstats['two_names'] > 100 and cstats['second_target_addressed'] > 100, 'two-name commands / the second target were not exercised')
+        unchanged_c = sum(1 for c in cases if c['layer'] == 'C' and finals[c['id']])
+        ck.part('layerC', file_left_unchanged=unchanged_c)
+        ck.require(0 < unchanged_c < len([c for c in cases if c['layer'] == 'C']), 'layer C: every / no command changed the file')
     if not ck.args.only:
         ck.require(total['edited_statements'] > 100, 'few edited statements were compared')
         ck.require(total['domain_evaluations'] > 1000, 'domain evaluation did not run')
@@ -1727,14 +1748,24 @@ def main():
               'sorting of source strings (positional sources compare as a multiset after flattening)')
     ck.assume('for a keyword addressed by the command an array of one value and the bare value are the same request (Meson '
               'listifies these keywords); default_options values compare case-insensitively')
+    ck.assume('a list operation owns one list: `add`/`rm` the sources (positional arguments, `sources:` and the assignments they are built '
+              'from), `add_extra_files`/`rm_extra_files` the `extra_files` keyword (and the assignments it is built from); the other list of the '
+              'target, every other target and every array that feeds no target must stay textually and by value what they were; build files are '
+              'read with universal newlines (a lone carriage return is a line break)')
     ck.assume('unspecified corners (skipped, counted): a source listed twice, addressed keyword that does not evaluate to '
               'literals, kwargs info of non-literal values, value clauses when the reference cannot evaluate the file')
     ck.finish(evaluations=total['steps'], distinct_nontrivial=len(outcome_classes),
               rule='every tree of the typed operator family (depth <= 2, <= %d compound operands) x re-print contexts %s; every string '
                    'literal class x every context; every command of a %d-command alphabet in CLI and JSON form on %d project shapes; '
-                   'every ordered pair of %s commands. One evaluation = one real `meson rewrite` process whose result went through '
+                   'every ordered pair of %s commands; layer C: every list operation (add / rm / add_extra_files / rm_extra_files) with every file name '
+                   'of a project in which each name class occurs (only in the sources, only in extra_files, in both, in the lists of another '
+                   'target, in an unrelated array, nowhere) and %s, on %d ways of writing the two lists (sources: %s x extra_files: %s). '
+                   'One evaluation = one real `meson rewrite` process whose result went through '
                    'clauses (1)-(4). distinct_nontrivial = distinct (layer, family, violation keys, file changed) outcome classes'
-                   % (ck.q(1, 3), CONTEXTS, len(ALPHABET), len(SHAPES_QUICK), ck.q('%d (4 shapes)' % len(PAIR_QUICK), 'all non-refused (8 shapes)')),
+                   % (ck.q(1, 3), CONTEXTS, len(ALPHABET), len(SHAPES_QUICK), ck.q('%d (4 shapes)' % len(PAIR_QUICK), 'all non-refused (8 shapes)'),
+                      ck.q('every unordered pair of the names the target mentions on 2 shapes (second target addressed on 6 shapes)',
+                           'every unordered pair of names (ordered, and for either target, on 6 shapes), single names for either target in CLI and JSON form'),
+                      len(CROSS_SF) * len(CROSS_XF), CROSS_SF, CROSS_XF),
               exhaustive=True, cases=len(cases), cases_with_findings=n_viol_cases, skipped_unspecified=total['skipped_unspecified'],
               cold_revalidated=cold_n)
 
